@@ -115,7 +115,29 @@ def _fault(ch, kind, toks, style):
     return None, None, None
 
 
+def _poison(ch):
+    """A damaged string parsed (on another, fresh path) between two parses of the case's string."""
+    if ch.coin(0.5):
+        pre = ch.choice(["", "M0,0 ", "M1,2 L3,4 ", "M0,0 L1,1 z ", "M0,0 L 1 ", "M0,0 C1,1 2,2 ", "M5,5 Q1,1 "])
+        return pre + ch.choice(gp.FRAGMENTS)
+    cmds = gp.gen_cmds(ch, ch.int(1, 5), mag=ch.choice(gp.MAGS))
+    s = gp.render(cmds, ch.int(0, 63))
+    k = ch.int(0, max(0, len(s) - 1))
+    s = s[:k]
+    if ch.coin(0.4):
+        s += ch.choice([" z", "z 5", " 1 z", "x", " L", " 7"])
+    return s
+
+
 def generate(seed, index, tier):
+    case = _generate(seed, index, tier)
+    if not case.get("long") and (index // 16) % 3 == 1:
+        ch = core.Chooser(seed ^ 0x5EED)
+        case["poison"] = [_poison(ch) for _ in range(ch.int(1, 2))]
+    return case
+
+
+def _generate(seed, index, tier):
     ch = core.Chooser(seed)
     st = index % 16
     case = {"faults": []}
@@ -341,6 +363,33 @@ def execute(case, se, out, trace):
                 if len(p) > len(ref):
                     out.count("probe:lenient-extra-segments")
 
+    # --- history independence: the result is a function of the string, not of earlier calls -------
+    if case.get("poison"):
+        first = (outcome, ob.path_snap(list(p)))
+        for ps in case["poison"]:
+            out.count("fault:poison-parse-between")
+            q0 = se.Path()
+            try:
+                q0.parse(ps)
+            except Exception:
+                pass
+        p2 = se.Path()
+        exc2 = None
+        try:
+            if pre is not None:
+                p2.parse(pre)
+            p2.parse(s)
+        except Exception as e:
+            exc2 = e
+        second = ("returned" if exc2 is None else type(exc2).__name__, ob.path_snap(list(p2)))
+        trace.ev("reparse", second[0], ob.kinds(p2))
+        if first[0] != second[0]:
+            raise V("history", ["outcome", first[0], second[0]], "parse(%r) %s at first but %s after an unrelated parse of %r: the result depends on earlier calls" % (_short(s), first[0], second[0], case["poison"]))
+        ok2, msg2 = ob.snaps_equal(first[1], second[1], rel=0.0)
+        if not ok2:
+            raise V("history", ["segments", first[0]], "parse(%r) retained [%s] at first but [%s] after an unrelated parse of %r (%s): the result depends on earlier calls" % (_short(s), ob.kinds(p), ob.kinds(p2), case["poison"], msg2))
+        out.count("probe:history-independence-checked")
+
     # --- 4: usable ------------------------------------------------------------
     segs = list(p)
     ok, msg, nonfinite = ob.all_points_numeric(segs)
@@ -390,6 +439,8 @@ def shrink(case):
         c = {"s": ns, "orig": case.get("orig"), "faults": case["faults"], "stratum": case.get("stratum"), "shrunk": True}
         if case.get("pre") is not None:
             c["pre"] = case["pre"]
+        if case.get("poison"):
+            c["poison"] = case["poison"]
         if case.get("long") and len(ns) > 2000:
             c["long"] = True
         return c
@@ -403,6 +454,11 @@ def shrink(case):
         if size == 1:
             break
         size //= 2
+    if case.get("poison") and len(case["poison"]) > 1:
+        for k in range(len(case["poison"])):
+            c = mk(s)
+            c["poison"] = case["poison"][:k] + case["poison"][k + 1 :]
+            yield c
     # simplify characters
     for i, ch_ in enumerate(s):
         if ch_ in "23456789":
